@@ -290,7 +290,9 @@ def _load():
     pre = profile(ordinary_only=True, n=[1, 1, 2], k=[2, 3, 3], prio=1.0, preempt=1.0, sched=0.0, inf=0.0, zero=0.0, slot=0.0, ps=0.0,
                   qcap=0.0, syscap=0.0, renege=0.0, batch=0.4, cct=0.2, ccm=0.2, exact=0.0, jockey=0.0,
                   preempt_opts=["resume", "restart", "resample", "reroute", "resume", "restart", "resample", False])
-    register(Profile("C11", [C11], [(1, pre)],
+    # ... also where customers get blocked (a blocked customer keeps its server and is never the victim), renege, and in exact arithmetic
+    pre_wide = dict(pre, qcap=0.4, renege=0.3, syscap=0.2, exact=0.15, inf=0.1)
+    register(Profile("C11", [C11], [(2, pre), (1, pre_wide)],
                      "distinct history digest; non-trivial = >=1 pre-emption (probe: the same customer pre-empted twice)",
                      B(40000, 400000)))
     tt = profile(n=[1, 1, 2], k=[1, 2], sched=0.75, slot=0.25, inf=0.0, zero=0.0, ps=0.0, preempt=0.0, prio=0.5, qcap=0.0, syscap=0.0,
@@ -341,7 +343,9 @@ def _load():
                  sched=0.35, sched_pre_opts=[False, False, "resume", "restart", "resample"], renege=0.35, prio=0.4, qcap=0.3, tdep=0.0,
                  batch=0.2, horizon=[8.0, 20.0], ccm=0.1, cct=0.0, plan={"time": 0.75, "cust": 0.25}, int_samples=0.4)
     exc = dict(ex, time={"cont": 1.0}, f_zero=0.0, policies=["uniform"], _cont=True)
-    register(Profile("C20", [C20], [(3, ex), (1, exc)],
+    ex_pre = dict(ex, prio=0.7, preempt=0.4, preempt_opts=["resume", "restart", "resample"], cct=0.15)     # remaining service times in Decimal
+    ex_slot = dict(ex, ordinary_only=False, ps=0.0, slot=0.4, sched=0.2)                                   # slot dates in Decimal
+    register(Profile("C20", [C20], [(3, ex), (1, exc), (1, ex_pre), (1, ex_slot)],
                      "exact=k runs (k in 10..30) on decimal-lattice tapes: every record field a Decimal, dates = exact rational sums of samples / "
                      "timetable dates; distinct history digest; non-trivial = >=1 pair of mathematically coincident events and >=10 records checked; "
                      "continuous sub-profile: exact run vs floating-point twin within 10^-(k-3)",
